@@ -127,8 +127,7 @@ def main():
     p = {'seed': chk.seed, 'bases': 12 if quick else 150, 'synth': 4 if quick else 40}
     units = [(name, b, p) for name, b in sorted(bind['modules'].items()) if any(n == name for n, _ in lib.modules())]
     missing = [name for name in bind['modules'] if not any(n == name for n, _ in lib.modules())]
-    if missing:
-        raise run.MachineryError('bound modules not found: %r' % missing)
+    chk.cov['bound_modules_no_longer_present'] = missing
     shards = chk.drive(units, worker)
     extra = run.merge_extra(shards)
     rej = chk.validate('Trace_Typo', shards, own_clauses={'E1'})
